@@ -276,10 +276,12 @@ func (F LevelDbStoreFactory) CreateStore(identifier string, temporary bool) (CRL
 
 	err := os.MkdirAll(levelDBPath, 0700)
 	if err != nil {
+		F.removeTemporaryDir(levelDBPath, temporary)
 		return nil, fmt.Errorf("could not create dirctory for crl storage in %s cause: %v", levelDBPath, err)
 	}
 	db, err := openDbWithRetries(levelDBPath, F.Logger)
 	if err != nil {
+		F.removeTemporaryDir(levelDBPath, temporary)
 		return nil, fmt.Errorf("could not create leveldb store: %v", err)
 	}
 	return &LevelDbStore{
@@ -290,6 +292,16 @@ func (F LevelDbStoreFactory) CreateStore(identifier string, temporary bool) (CRL
 		LevelDBPath: levelDBPath,
 		Logger:      F.Logger,
 	}, nil
+}
+
+// removeTemporaryDir removes the directory of a temporary store which could not be created completely
+func (F LevelDbStoreFactory) removeTemporaryDir(levelDBPath string, temporary bool) {
+	if temporary {
+		err := os.RemoveAll(levelDBPath)
+		if err != nil {
+			F.Logger.Warn("failed to delete temporary path, will be deleted on next restart", zap.String("path", levelDBPath))
+		}
+	}
 }
 
 func createTempDirWithRetries(basePath string, logger *zap.Logger) (string, error) {
